@@ -7,7 +7,7 @@ var fieldTypes = map[string]Type{
 	"F": TFloat, "F32": TFloat, "S": TString, "S2": TString, "B": TBool, "T": TTime,
 	"P": TPtr, "P2": TPtr, "PN": TInt, "P.X": TInt, "P.Y": TString, "P.Z": TFloat, "P.Q": TPtr, "P.Q.V": TInt, "P.Q.W": TString,
 	"L[].X": TInt, "L[].Y": TString, "L[].Z": TFloat, "MP[].X": TInt, "MP[].Y": TString, "MP[].Z": TFloat, "L[]": TPtr, "MP[]": TPtr,
-	"A[]": TInt, "AS[]": TString, "AF[]": TFloat, "M[]": TInt, "MS[]": TString,
+	"A[]": TInt, "AS[]": TString, "AF[]": TFloat, "M[]": TInt, "MS[]": TString, "MI[]": TInt,
 }
 
 var jsonTypes = map[string]Type{"n": TFloat, "s": TString, "b": TBool, "o.k": TFloat, "a[]": TFloat}
@@ -66,9 +66,9 @@ func TypeOf(e *Expr) Type {
 		return TBool
 	case "vfn":
 		switch e.Fn {
-		case "Len", "Index", "Count", "Compare":
+		case "Len", "Index", "Count", "Compare", "LastIndex":
 			return TInt
-		case "ToUpper", "ToLower", "Trim":
+		case "ToUpper", "ToLower", "Trim", "Replace":
 			return TString
 		default:
 			return TBool
@@ -146,7 +146,11 @@ func ExprSlots(p *Program) []**Expr {
 	for _, r := range p.Rules {
 		walk(&r.When)
 		for _, a := range r.Then {
-			if a.E != nil {
+			if a.K == "eval" { // a bare call statement stays a call: only its arguments are up for simplification
+				for i := range a.E.Args {
+					walk(&a.E.Args[i])
+				}
+			} else if a.E != nil {
 				walk(&a.E)
 			}
 			if a.Path != nil {
